@@ -1,5 +1,6 @@
 import SwcVerif.Gen.AlgoCheckers
 import SwcVerif.Refine.PyLemmas
+import SwcVerif.Refine.Dsu
 import SwcVerif.Proofs.Dsu
 /-! Refinement for C18 (pointer jumping): the definition GENERATED from `swcgeom/core/swc_utils/base.py::get_dsu`
 (`np.where` initialisation, `dict(zip(...))` index, the `while True` loop over `enumerate(dsu)` reading the array
@@ -256,5 +257,101 @@ theorem getDsu_refines (ids pids : List Int) (hnd : ids.Nodup) (hl : ids.length 
       obtain ⟨v', e2, d2⟩ := hloop
       rw [e2]
       simp [finish, hj, d2]
+
+/-! ### `has_cyclic` -/
+
+open RefineDsu in
+/-- the row loop of `has_cyclic`, from row `k` on -/
+theorem cyclic_loop (ids pids : List Int) (F : Nat) (hl : ids.length = pids.length)
+    (hi : ∀ i ∈ ids, 0 ≤ i ∧ i < (ids.length : Int)) (hp : ∀ p ∈ pids, p = -1 ∨ (0 ≤ p ∧ p < (ids.length : Int))) :
+    ∀ (m k : Nat) (d : D) (g : DisjointSetUnion) (v : has_cyclic.V), k + m = ids.length → Good g d → d.n = ids.length →
+      d.b + m < F → v.dsu = g → v.topology = (ids, pids) →
+      ∃ r, hasCyclicLoop d (ids.drop k) (pids.drop k) = some r ∧
+        ((r = true ∧ ∃ v', forEach (has_cyclic.for1 F) ((List.range' k m).map (fun (j : Nat) => (j : Int))) v = .ret v' true) ∨
+         (r = false ∧ ∃ v', forEach (has_cyclic.for1 F) ((List.range' k m).map (fun (j : Nat) => (j : Int))) v = .next v')) := by
+  intro m
+  induction m with
+  | zero =>
+    intro k d g v hk _ _ _ _ _
+    have : ids.drop k = [] := List.drop_eq_nil_of_le (by omega)
+    refine ⟨false, by simp [this, hasCyclicLoop], Or.inr ⟨rfl, v, by simp [forEach]⟩⟩
+  | succ m ih =>
+    intro k d g v hk hgood hn hF hdsu htop
+    have hkl : k < ids.length := by omega
+    have hkp : k < pids.length := by omega
+    have ei : ids.drop k = ids[k] :: ids.drop (k + 1) := List.drop_eq_getElem_cons hkl
+    have ep : pids.drop k = pids[k] :: pids.drop (k + 1) := List.drop_eq_getElem_cons hkp
+    have ga : idx ids (k : Int) = some ids[k] := by rw [Py.idx_nat _ _ hkl]; simp
+    have gb : idx pids (k : Int) = some pids[k] := by rw [Py.idx_nat _ _ hkp]; simp
+    rw [ei, ep]
+    simp only [List.range'_succ, List.map_cons, forEach]
+    by_cases hroot : pids[k] = -1
+    · -- a root row: `continue`
+      obtain ⟨r, e, hr⟩ := ih (k + 1) d g { v with i := (k : Int), node_a := ids[k], node_b := pids[k] } (by omega) hgood hn (by omega)
+        (by simpa using hdsu) (by simpa using htop)
+      refine ⟨r, ?_, ?_⟩
+      · simp [hasCyclicLoop, hroot, e]
+      · have hb : has_cyclic.for1 F (k : Int) v = .cont { v with i := (k : Int), node_a := ids[k], node_b := pids[k] } := by
+          simp [has_cyclic.for1, seq, Py.bind, htop, ga, gb, hroot]
+        simp only [hb]
+        exact hr
+    · have ha0 := hi ids[k] (List.getElem_mem hkl)
+      rcases hp pids[k] (List.getElem_mem hkp) with hb1 | hb0
+      · exact absurd hb1 hroot
+      have ea : ids[k] = ((ids[k].toNat : Nat) : Int) := by omega
+      have eb : pids[k] = ((pids[k].toNat : Nat) : Int) := by omega
+      have han : ids[k].toNat < d.n := by omega
+      have hbn : pids[k].toNat < d.n := by omega
+      obtain ⟨g1, e1, good1⟩ := good_same hgood ids[k].toNat pids[k].toNat han hbn F (by omega)
+      rw [← ea, ← eb] at e1
+      have hstep : hasCyclicLoop d (ids[k] :: ids.drop (k + 1)) (pids[k] :: pids.drop (k + 1)) =
+          if (same d ids[k].toNat pids[k].toNat).1 then some true
+          else hasCyclicLoop (union (same d ids[k].toNat pids[k].toNat).2 ids[k].toNat pids[k].toNat) (ids.drop (k + 1)) (pids.drop (k + 1)) := by
+        have hv1 : valid d ids[k].toNat = true := by simp [valid, han]
+        have hv2 : valid d pids[k].toNat = true := by simp [valid, hbn]
+        have hn0 : ¬ ids[k] < 0 := by omega
+        have hn1 : ¬ pids[k] < 0 := by omega
+        simp [hasCyclicLoop, hroot, hv1, hv2, hn0, hn1]
+      rw [hstep]
+      by_cases hs : (same d ids[k].toNat pids[k].toNat).1 = true
+      · refine ⟨true, by simp [hs], Or.inl ⟨rfl, ?_⟩⟩
+        refine ⟨{ v with i := (k : Int), node_a := ids[k], node_b := pids[k], dsu := g1 }, ?_⟩
+        simp only [has_cyclic.for1, seq, Py.bind, htop, ga, gb, hroot, decide_false, Bool.false_eq_true, if_false, skip, hdsu, e1, hs,
+          if_true]
+      · have hsf : (same d ids[k].toNat pids[k].toNat).1 = false := by simpa using hs
+        have hsn : (same d ids[k].toNat pids[k].toNat).2.n = d.n := by simp [same]
+        have hsb : (same d ids[k].toNat pids[k].toNat).2.b = d.b := by simp [same]
+        obtain ⟨g2, e2, good2⟩ := good_union good1 ids[k].toNat pids[k].toNat (by rw [hsn]; exact han) (by rw [hsn]; exact hbn) F
+          (by rw [hsb]; omega)
+        rw [← ea, ← eb] at e2
+        have hub := union_b_le (same d ids[k].toNat pids[k].toNat).2 ids[k].toNat pids[k].toNat
+        obtain ⟨r, e, hr⟩ := ih (k + 1) (union (same d ids[k].toNat pids[k].toNat).2 ids[k].toNat pids[k].toNat) g2
+          { v with i := (k : Int), node_a := ids[k], node_b := pids[k], dsu := g2 } (by omega) good2 (by rw [hub.2, hsn, hn]) (by omega) rfl
+          (by simpa using htop)
+        refine ⟨r, by simp [hsf, e], ?_⟩
+        have hb : has_cyclic.for1 F (k : Int) v = .next { v with i := (k : Int), node_a := ids[k], node_b := pids[k], dsu := g2 } := by
+          simp only [has_cyclic.for1, seq, Py.bind, htop, ga, gb, hroot, decide_false, Bool.false_eq_true, if_false, skip, hdsu, e1, hsf,
+            e2]
+        simp only [hb]
+        exact hr
+
+open RefineDsu in
+/-- **`has_cyclic` as translated equals the model on every valid table** (ids `0..n-1` in any order, parents -1 or a row) -/
+theorem hasCyclic_refines (ids pids : List Int) (hl : ids.length = pids.length)
+    (hi : ∀ i ∈ ids, 0 ≤ i ∧ i < (ids.length : Int)) (hp : ∀ p ∈ pids, p = -1 ∨ (0 ≤ p ∧ p < (ids.length : Int))) (F : Nat) :
+    has_cyclic (ids.length + 1 + F) (ids, pids) = hasCyclic ids pids := by
+  obtain ⟨g, eg, rg⟩ := init_refines default ids.length
+  have hgood : Good g (init ids.length) := ⟨rg, by intro i hi'; simpa [init] using hi', ⟨fun x hx => absurd rfl hx, fun x => Nat.le_refl _⟩⟩
+  obtain ⟨r, e, hr⟩ := cyclic_loop ids pids (ids.length + 1 + F) hl hi hp ids.length 0 (init ids.length) g
+    { (default : has_cyclic.V) with topology := (ids, pids), node_num := (ids.length : Int), dsu := g } (by omega) hgood rfl
+    (by simp [init]; omega) rfl rfl
+  simp only [List.drop_zero] at e
+  simp only [hasCyclic, e]
+  have hrange : range ((ids.length : Nat) : Int) = (List.range' 0 ids.length).map (fun (j : Nat) => (j : Int)) := by
+    simp [List.range_eq_range']
+  simp only [has_cyclic, has_cyclic.body, seq, Py.bind, len_eq, eg, hrange]
+  rcases hr with ⟨rt, v', ev⟩ | ⟨rf, v', ev⟩
+  · simp only [ev, rt, finish, Option.map]
+  · simp only [ev, rf, finish, Option.map]
 
 end RefineCheckers
